@@ -105,19 +105,31 @@ Section WrapperProofs.
   Definition begin_shape (n : nat) (L : list event) (ok : bool) : Prop :=
     (ok = true /\ L = Ev Sop OBegin true :: parts_ev OBegin true 0 n) \/
     (ok = false /\ L = [Ev Sop OBegin false]) \/
-    (ok = false /\ exists k, k < n /\ L = Ev Sop OBegin true :: parts_ev OBegin true 0 k ++ [Ev (Part k) OBegin false]).
+    (ok = false /\ exists k rb, k < n /\
+        L = (Ev Sop OBegin true :: parts_ev OBegin true 0 k ++ [Ev (Part k) OBegin false]) ++ rb /\
+        rollback_shape k rb).
+
+  Lemma parts_ev_length : forall o ok i n, length (parts_ev o ok i n) = n.
+  Proof. intros. unfold parts_ev. rewrite map_length, seq_length. reflexivity. Qed.
 
   Lemma w_begin_spec : forall s ps,
     let r := w_begin SS PS sstep pstep s ps in
-    begin_shape (length ps) (o_log r) (o_ok r) /\ length (o_parts r) = length ps /\ o_sop r = snd (sstep s OBegin).
+    begin_shape (length ps) (o_log r) (o_ok r) /\ length (o_parts r) = length ps.
   Proof.
     intros s ps. unfold w_begin. destruct (sstep s OBegin) as [ok s'] eqn:Es. destruct ok.
-    - destruct (until_fail PS pstep OBegin 0 ps) as [[l res] ps'] eqn:Eu. cbn [o_log o_ok o_sop o_parts snd].
-      destruct (until_fail_spec _ _ _ _ _ _ Eu) as [Hlen Hcase]. split; [|split; [exact Hlen|reflexivity]].
-      destruct Hcase as [[Hr Hl]|[Hr [k [Hk Hl]]]]; subst.
-      + left. split; reflexivity.
-      + right. right. split; [reflexivity|]. exists k. split; [exact Hk|reflexivity].
-    - cbn [o_log o_ok o_sop o_parts snd]. split; [|split; reflexivity]. right. left. split; reflexivity.
+    - destruct (until_fail PS pstep OBegin 0 ps) as [[l res] ps'] eqn:Eu.
+      destruct (until_fail_spec _ _ _ _ _ _ Eu) as [Hlen Hcase].
+      destruct Hcase as [[Hr Hl]|[Hr [k [Hk Hl]]]]; subst res l.
+      + cbn [o_log o_ok o_parts]. split; [|exact Hlen]. left. split; reflexivity.
+      + assert (Hi : pred (length (parts_ev OBegin true 0 k ++ [Ev (Part (0 + k)) OBegin false])) = k).
+        { rewrite app_length, parts_ev_length. cbn [length]. lia. }
+        rewrite Hi. cbn [o_log o_ok o_parts].
+        destruct (w_rollback_spec s' (firstn k ps')) as [Hsh [Hlr _]].
+        assert (Hk' : length (firstn k ps') = k) by (rewrite firstn_length; lia).
+        rewrite Hk' in Hsh, Hlr. split.
+        * right. right. split; [reflexivity|]. exists k. eexists. split; [exact Hk|]. split; [reflexivity|exact Hsh].
+        * rewrite app_length, Hlr, skipn_length. lia.
+    - cbn [o_log o_ok o_parts]. split; [|reflexivity]. right. left. split; reflexivity.
   Qed.
 
   (* ---------------------------------------------------------------- Commit *)
@@ -196,4 +208,296 @@ Proof.
   intros a b L [x [y [z H]]]. subst. split.
   - apply in_or_app. right. left. reflexivity.
   - apply in_or_app. right. right. apply in_or_app. right. left. reflexivity.
+Qed.
+
+(* ------------------------------------------------------------------ the property lemmas (stated again in Props/C16.v) *)
+
+Section C16Lemmas.
+  Variables SS PS : Type.
+  Variable sstep : SS -> op -> bool * SS.
+  Variable pstep : PS -> op -> bool * PS.
+  Notation commit := (w_commit SS PS sstep pstep).
+  Notation rollback := (w_rollback SS PS sstep pstep).
+  Notation begin := (w_begin SS PS sstep pstep).
+
+  (* The complete characterisation of what Commit does: one of four call logs. *)
+  Lemma c16_commit_log : forall s ps,
+    commit_shape (length ps) (o_log (commit s ps)) (o_ok (commit s ps)).
+  Proof. intros s ps. apply (w_commit_spec SS PS sstep pstep s ps). Qed.
+
+  Lemma in_prefix_cases : forall e b k x,
+    In e (Ev Sop OP1 b :: parts_ev OP1 true 0 k ++ [x]) ->
+    e = Ev Sop OP1 b \/ (exists j, j < k /\ e = Ev (Part j) OP1 true) \/ e = x.
+  Proof.
+    intros e b k x [H|H]; [left; congruence|]. apply in_app_or in H. destruct H as [H|[H|[]]].
+    - right. left. apply parts_ev_In in H. destruct H as [j [Hj He]]. exists j. split; [lia|exact He].
+    - right. right. congruence.
+  Qed.
+
+  (* No participant's second phase runs unless every first phase succeeded and SOP's own second phase
+     succeeded — and they all did so BEFORE it; the only failures in such a log are second phases of
+     participants (which Commit ignores by design). *)
+  Lemma c16_p2_guard : forall s ps i ok,
+    let L := o_log (commit s ps) in
+    In (Ev (Part i) OP2 ok) L ->
+    o_ok (commit s ps) = true
+    /\ before (Ev Sop OP1 true) (Ev Sop OP2 true) L
+    /\ (forall j, j < length ps -> before (Ev (Part j) OP1 true) (Ev Sop OP2 true) L)
+    /\ before (Ev Sop OP2 true) (Ev (Part i) OP2 ok) L
+    /\ (forall e, In e L -> e_ok e = false -> e_op e = OP2 /\ e_who e <> Sop).
+  Proof.
+    intros s ps i ok L Hin. subst L. destruct (c16_commit_log s ps) as [H|[H|[H|H]]].
+    - exfalso. destruct H as [_ [rb [HL Hsh]]]. rewrite HL in Hin. destruct Hin as [Hin|Hin]; [discriminate|].
+      apply (rollback_shape_ops _ _ _ Hsh) in Hin. discriminate.
+    - exfalso. destruct H as [_ [k [rb [_ [HL Hsh]]]]]. rewrite HL in Hin. apply in_app_or in Hin. destruct Hin as [Hin|Hin].
+      + apply in_prefix_cases in Hin. destruct Hin as [Hin|[[j [_ Hin]]|Hin]]; discriminate.
+      + apply (rollback_shape_ops _ _ _ Hsh) in Hin. discriminate.
+    - exfalso. destruct H as [_ [rb [HL Hsh]]]. rewrite HL in Hin. apply in_app_or in Hin. destruct Hin as [Hin|Hin].
+      + apply in_prefix_cases in Hin. destruct Hin as [Hin|[[j [_ Hin]]|Hin]]; discriminate.
+      + apply (rollback_shape_ops _ _ _ Hsh) in Hin. discriminate.
+    - destruct H as [Hok [l2 [HL Hsh]]]. rewrite HL in *. split; [exact Hok|].
+      set (P := parts_ev OP1 true 0 (length ps)) in *.
+      assert (Hl2 : In (Ev (Part i) OP2 ok) l2).
+      { destruct Hin as [Hin|Hin]; [discriminate|]. apply in_app_or in Hin. destruct Hin as [Hin|[Hin|Hin]]; [|discriminate|exact Hin].
+        apply parts_ev_In in Hin. destruct Hin as [j [_ Hin]]. discriminate. }
+      split; [exists [], P, l2; reflexivity|]. split.
+      { intros j Hj. assert (Hp : In (Ev (Part j) OP1 true) P) by (apply parts_ev_In; exists j; split; [lia|reflexivity]).
+        apply in_split in Hp. destruct Hp as [u [v Hp]]. exists (Ev Sop OP1 true :: u), v, l2. rewrite Hp.
+        cbn [app]. rewrite <- app_assoc. reflexivity. }
+      split.
+      { replace (Ev Sop OP1 true :: P ++ Ev Sop OP2 true :: l2) with ((Ev Sop OP1 true :: P ++ [Ev Sop OP2 true]) ++ l2)
+          by (cbn [app]; rewrite <- app_assoc; reflexivity).
+        apply before_intro; [|exact Hl2]. right. apply in_or_app. right. left. reflexivity. }
+      intros e He Hf. destruct He as [He|He]; [subst; discriminate|]. apply in_app_or in He. destruct He as [He|[He|He]].
+      + apply parts_ev_In in He. destruct He as [j [_ He]]. subst. discriminate.
+      + subst. discriminate.
+      + destruct (all_shape_op _ _ _ _ _ Hsh He) as [Ho [j [_ Hw]]]. split; [exact Ho|]. rewrite Hw. discriminate.
+  Qed.
+
+  (* If anything fails before that (SOP's first phase, a participant's first phase, SOP's second phase):
+     Commit reports an error, SOP's Rollback is called and every participant is asked to roll back, all
+     AFTER the failure; no participant's second phase runs and SOP's second phase has not succeeded. *)
+  Lemma c16_rollback_fanout : forall s ps,
+    let L := o_log (commit s ps) in
+    o_ok (commit s ps) = false ->
+    exists f, In f L /\ e_ok f = false /\ (e_op f = OP1 \/ (e_op f = OP2 /\ e_who f = Sop))
+      /\ (exists okr, before f (Ev Sop ORollback okr) L)
+      /\ (forall j, j < length ps -> exists okj, before f (Ev (Part j) ORollback okj) L)
+      /\ (forall i ok, ~ In (Ev (Part i) OP2 ok) L)
+      /\ ~ In (Ev Sop OP2 true) L.
+  Proof.
+    intros s ps L Hok.
+    assert (Hno : forall i ok, ~ In (Ev (Part i) OP2 ok) L).
+    { intros i ok Hin. destruct (c16_p2_guard s ps i ok Hin) as [H _]. congruence. }
+    subst L. destruct (c16_commit_log s ps) as [H|[H|[H|H]]].
+    - destruct H as [_ [rb [HL Hsh]]]. exists (Ev Sop OP1 false). rewrite HL in *.
+      split; [left; reflexivity|]. split; [reflexivity|]. split; [left; reflexivity|]. split.
+      { destruct (rollback_shape_sop _ _ Hsh) as [okr Hr]. exists okr. apply before_intro; [left; reflexivity|exact Hr]. }
+      split.
+      { intros j Hj. destruct (rollback_shape_part _ _ j Hsh Hj) as [okj Hr]. exists okj. apply before_intro; [left; reflexivity|exact Hr]. }
+      split; [exact Hno|]. intros [Hin|Hin]; [discriminate|]. apply (rollback_shape_ops _ _ _ Hsh) in Hin. discriminate.
+    - destruct H as [_ [k [rb [Hk [HL Hsh]]]]]. exists (Ev (Part k) OP1 false). rewrite HL in *.
+      assert (Hf : In (Ev (Part k) OP1 false) (Ev Sop OP1 true :: parts_ev OP1 true 0 k ++ [Ev (Part k) OP1 false]))
+        by (right; apply in_or_app; right; left; reflexivity).
+      split; [apply in_or_app; left; exact Hf|]. split; [reflexivity|]. split; [left; reflexivity|]. split.
+      { destruct (rollback_shape_sop _ _ Hsh) as [okr Hr]. exists okr. apply before_intro; assumption. }
+      split.
+      { intros j Hj. destruct (rollback_shape_part _ _ j Hsh Hj) as [okj Hr]. exists okj. apply before_intro; assumption. }
+      split; [exact Hno|]. intro Hin. apply in_app_or in Hin. destruct Hin as [Hin|Hin].
+      + apply in_prefix_cases in Hin. destruct Hin as [Hin|[[j [_ Hin]]|Hin]]; discriminate.
+      + apply (rollback_shape_ops _ _ _ Hsh) in Hin. discriminate.
+    - destruct H as [_ [rb [HL Hsh]]]. exists (Ev Sop OP2 false). rewrite HL in *.
+      assert (Hf : In (Ev Sop OP2 false) (Ev Sop OP1 true :: parts_ev OP1 true 0 (length ps) ++ [Ev Sop OP2 false]))
+        by (right; apply in_or_app; right; left; reflexivity).
+      split; [apply in_or_app; left; exact Hf|]. split; [reflexivity|]. split; [right; split; reflexivity|]. split.
+      { destruct (rollback_shape_sop _ _ Hsh) as [okr Hr]. exists okr. apply before_intro; assumption. }
+      split.
+      { intros j Hj. destruct (rollback_shape_part _ _ j Hsh Hj) as [okj Hr]. exists okj. apply before_intro; assumption. }
+      split; [exact Hno|]. intro Hin. apply in_app_or in Hin. destruct Hin as [Hin|Hin].
+      + apply in_prefix_cases in Hin. destruct Hin as [Hin|[[j [_ Hin]]|Hin]]; discriminate.
+      + apply (rollback_shape_ops _ _ _ Hsh) in Hin. discriminate.
+    - destruct H as [Ht _]. congruence.
+  Qed.
+
+  (* Commit fails exactly when a first phase or SOP's second phase fails; when it succeeds every
+     participant's second phase has run exactly once and nobody was rolled back. *)
+  Lemma c16_commit_outcome : forall s ps,
+    let L := o_log (commit s ps) in
+    (o_ok (commit s ps) = false <->
+       exists f, In f L /\ e_ok f = false /\ (e_op f = OP1 \/ (e_op f = OP2 /\ e_who f = Sop))) /\
+    (o_ok (commit s ps) = true ->
+       (exists l2, L = Ev Sop OP1 true :: parts_ev OP1 true 0 (length ps) ++ Ev Sop OP2 true :: l2
+                   /\ all_shape OP2 0 (length ps) l2)
+       /\ forall e, In e L -> e_op e <> ORollback).
+  Proof.
+    intros s ps L. split; [split|].
+    - intro Hok. destruct (c16_rollback_fanout s ps Hok) as [f [H1 [H2 [H3 _]]]]. exists f. auto.
+    - intros [f [Hin [Hf Hop]]]. destruct (o_ok (commit s ps)) eqn:Hok; [|reflexivity]. exfalso.
+      subst L. destruct (c16_commit_log s ps) as [H|[H|[H|H]]]; try (destruct H as [H _]; congruence).
+      destruct H as [_ [l2 [HL Hsh]]]. rewrite HL in Hin.
+      destruct Hin as [Hin|Hin]; [subst; discriminate|]. apply in_app_or in Hin. destruct Hin as [Hin|[Hin|Hin]].
+      + apply parts_ev_In in Hin. destruct Hin as [j [_ Hin]]. subst. discriminate.
+      + subst. discriminate.
+      + destruct (all_shape_op _ _ _ _ _ Hsh Hin) as [Ho [j [_ Hw]]]. destruct Hop as [Hop|[_ Hop]]; congruence.
+    - intro Hok. subst L. destruct (c16_commit_log s ps) as [H|[H|[H|H]]]; try (destruct H as [H _]; congruence).
+      destruct H as [_ [l2 [HL Hsh]]]. split; [exists l2; split; assumption|]. rewrite HL.
+      intros e Hin. destruct Hin as [Hin|Hin]; [subst; discriminate|]. apply in_app_or in Hin. destruct Hin as [Hin|[Hin|Hin]].
+      + apply parts_ev_In in Hin. destruct Hin as [j [_ Hin]]. subst. discriminate.
+      + subst. discriminate.
+      + destruct (all_shape_op _ _ _ _ _ Hsh Hin) as [Ho _]. congruence.
+  Qed.
+
+  (* Rollback itself reaches SOP and every participant exactly once, in order, whichever rollbacks fail;
+     it reports success exactly when all of them succeeded. *)
+  Lemma c16_rollback_reaches_all : forall s ps,
+    rollback_shape (length ps) (o_log (rollback s ps)) /\
+    (o_ok (rollback s ps) = true <-> Forall (fun e => e_ok e = true) (o_log (rollback s ps))).
+  Proof. intros s ps. destruct (w_rollback_spec SS PS sstep pstep s ps) as [H1 [_ [_ H2]]]. split; assumption. Qed.
+
+  (* Begin: the complete list of call logs *)
+  Lemma c16_begin_log : forall s ps,
+    begin_shape (length ps) (o_log (begin s ps)) (o_ok (begin s ps)) /\ length (o_parts (begin s ps)) = length ps.
+  Proof. intros s ps. apply (w_begin_spec SS PS sstep pstep s ps). Qed.
+
+  Lemma in_begin_prefix_cases : forall e k,
+    In e (Ev Sop OBegin true :: parts_ev OBegin true 0 k ++ [Ev (Part k) OBegin false]) ->
+    e = Ev Sop OBegin true \/ (exists j, j < k /\ e = Ev (Part j) OBegin true) \/ e = Ev (Part k) OBegin false.
+  Proof.
+    intros e k [H|H]; [left; congruence|]. apply in_app_or in H. destruct H as [H|[H|[]]].
+    - right. left. apply parts_ev_In in H. destruct H as [j [Hj He]]. exists j. split; [lia|exact He].
+    - right. right. congruence.
+  Qed.
+
+  Lemma c16_begin_sop_failure : forall s ps,
+    In (Ev Sop OBegin false) (o_log (begin s ps)) ->
+    o_ok (begin s ps) = false /\ o_log (begin s ps) = [Ev Sop OBegin false].
+  Proof.
+    intros s ps Hin. destruct (c16_begin_log s ps) as [[H|[H|H]] _].
+    - exfalso. destruct H as [_ HL]. rewrite HL in Hin. destruct Hin as [Hin|Hin]; [discriminate|].
+      apply parts_ev_In in Hin. destruct Hin as [j [_ Hin]]. discriminate.
+    - exact H.
+    - exfalso. destruct H as [_ [k [rb [_ [HL Hsh]]]]]. rewrite HL in Hin. apply in_app_or in Hin. destruct Hin as [Hin|Hin].
+      + apply in_begin_prefix_cases in Hin. destruct Hin as [Hin|[[j [_ Hin]]|Hin]]; discriminate.
+      + apply (rollback_shape_ops _ _ _ Hsh) in Hin. discriminate.
+  Qed.
+
+  Lemma c16_begin_fanout : forall s ps k,
+    let L := o_log (begin s ps) in
+    let f := Ev (Part k) OBegin false in
+    In f L ->
+    o_ok (begin s ps) = false
+    /\ In (Ev Sop OBegin true) L
+    /\ (exists okr, before f (Ev Sop ORollback okr) L)
+    /\ (forall j, j < k -> In (Ev (Part j) OBegin true) L /\ exists okj, before f (Ev (Part j) ORollback okj) L)
+    /\ (forall j o ok, k <= j -> In (Ev (Part j) o ok) L -> Ev (Part j) o ok = f).
+  Proof.
+    intros s ps k L f Hin. subst L f. destruct (c16_begin_log s ps) as [[H|[H|H]] _].
+    - exfalso. destruct H as [_ HL]. rewrite HL in Hin. destruct Hin as [Hin|Hin]; [discriminate|].
+      apply parts_ev_In in Hin. destruct Hin as [j [_ Hin]]. discriminate.
+    - exfalso. destruct H as [_ HL]. rewrite HL in Hin. destruct Hin as [Hin|[]]. discriminate.
+    - destruct H as [Hok [k' [rb [Hk [HL Hsh]]]]]. rewrite HL in *.
+      assert (k = k').
+      { apply in_app_or in Hin. destruct Hin as [Hin|Hin].
+        - apply in_begin_prefix_cases in Hin. destruct Hin as [Hin|[[j [_ Hin]]|Hin]]; try discriminate. congruence.
+        - apply (rollback_shape_ops _ _ _ Hsh) in Hin. discriminate. }
+      subst k'.
+      assert (Hf : In (Ev (Part k) OBegin false) (Ev Sop OBegin true :: parts_ev OBegin true 0 k ++ [Ev (Part k) OBegin false]))
+        by (right; apply in_or_app; right; left; reflexivity).
+      split; [exact Hok|]. split; [left; reflexivity|]. split.
+      { destruct (rollback_shape_sop _ _ Hsh) as [okr Hr]. exists okr. apply before_intro; assumption. }
+      split.
+      { intros j Hj. split.
+        - apply in_or_app. left. right. apply in_or_app. left. apply parts_ev_In. exists j. split; [lia|reflexivity].
+        - destruct (rollback_shape_part _ _ j Hsh Hj) as [okj Hr]. exists okj. apply before_intro; assumption. }
+      intros j o ok Hj He. apply in_app_or in He. destruct He as [He|He].
+      + apply in_begin_prefix_cases in He. destruct He as [He|[[j' [Hj' He]]|He]]; [discriminate| |exact He].
+        inversion He; subst. lia.
+      + destruct Hsh as [okr [l [Hrb Hall]]]. subst rb. destruct He as [He|He]; [discriminate|].
+        destruct (all_shape_op _ _ _ _ _ Hall He) as [_ [j' [Hj' Hw]]]. cbn [e_who] in Hw. inversion Hw; subst. lia.
+  Qed.
+
+  Lemma before_app_r : forall a b (L X : list event), before a b L -> before a b (L ++ X).
+  Proof.
+    intros a b L X [x [y [z H]]]. subst. exists x, y, (z ++ X).
+    repeat (rewrite <- app_assoc; cbn [app]). reflexivity.
+  Qed.
+
+  (* whoever has begun is rolled back whenever a top-level call of the session reports an error *)
+  Lemma c16_session : forall cleanup s ps w,
+    let '(L, res, _, _) := run_session SS PS sstep pstep SCommit cleanup s ps in
+    In false res ->
+    In (Ev w OBegin true) (o_log (begin s ps)) ->
+    exists ok, before (Ev w OBegin true) (Ev w ORollback ok) L.
+  Proof.
+    intros cleanup s ps w. unfold run_session.
+    destruct (c16_begin_log s ps) as [Hshape Hlen].
+    destruct (o_ok (begin s ps)) eqn:Hok.
+    - intros Hres Hb. destruct Hres as [Hres|[Hres|[]]]; [discriminate|].
+      destruct Hshape as [[_ HL]|[[Hc _]|[Hc _]]]; try discriminate.
+      set (b := begin s ps) in *.
+      assert (Hw : w = Sop \/ exists j, j < length (o_parts b) /\ w = Part j).
+      { rewrite HL in Hb. destruct Hb as [Hb|Hb]; [left; congruence|]. right.
+        apply parts_ev_In in Hb. destruct Hb as [j [Hj He]]. exists j. split; [lia|congruence]. }
+      assert (Hrb : exists pre rb, o_log (commit (o_sop b) (o_parts b)) = pre ++ rb /\ rollback_shape (length (o_parts b)) rb).
+      { destruct (c16_commit_log (o_sop b) (o_parts b)) as [H|[H|[H|H]]].
+        - destruct H as [_ [rb [H1 H2]]]. eauto.
+        - destruct H as [_ [k [rb [_ [H1 H2]]]]]. eauto.
+        - destruct H as [_ [rb [H1 H2]]]. eauto.
+        - destruct H as [Ht _]. congruence. }
+      destruct Hrb as [pre [rb [HLc Hsh]]].
+      assert (Hr : exists ok, In (Ev w ORollback ok) (o_log (commit (o_sop b) (o_parts b)))).
+      { rewrite HLc. destruct Hw as [Hw|[j [Hj Hw]]]; subst w.
+        - destruct (rollback_shape_sop _ _ Hsh) as [ok Hr]. exists ok. apply in_or_app. right. exact Hr.
+        - destruct (rollback_shape_part _ _ j Hsh Hj) as [ok Hr]. exists ok. apply in_or_app. right. exact Hr. }
+      destruct Hr as [ok Hr]. exists ok. apply before_intro; assumption.
+    - assert (Hin : In (Ev w OBegin true) (o_log (begin s ps)) ->
+                    exists ok, before (Ev w OBegin true) (Ev w ORollback ok) (o_log (begin s ps))).
+      { intro Hb. destruct Hshape as [[Hc _]|[[_ HL]|[_ [k [rb [Hk [HL Hsh]]]]]]]; [discriminate| |].
+        - rewrite HL in Hb. destruct Hb as [Hb|[]]. discriminate.
+        - rewrite HL in *. apply in_app_or in Hb. destruct Hb as [Hb|Hb].
+          + assert (Hw : w = Sop \/ exists j, j < k /\ w = Part j).
+            { apply in_begin_prefix_cases in Hb. destruct Hb as [Hb|[[j [Hj Hb]]|Hb]]; [left; congruence| |discriminate].
+              right. exists j. split; [exact Hj|congruence]. }
+            destruct Hw as [Hw|[j [Hj Hw]]]; subst w.
+            * destruct (rollback_shape_sop _ _ Hsh) as [ok Hr]. exists ok. apply before_intro; assumption.
+            * destruct (rollback_shape_part _ _ j Hsh Hj) as [ok Hr]. exists ok. apply before_intro; assumption.
+          + apply (rollback_shape_ops _ _ _ Hsh) in Hb. discriminate. }
+      destruct cleanup; cbn; intros _ Hb; destruct (Hin Hb) as [ok Hbf]; exists ok.
+      + apply before_app_r. exact Hbf.
+      + exact Hbf.
+  Qed.
+End C16Lemmas.
+
+(* SOP's own outcome with the phase state machine of common.Transaction *)
+Lemma c16_sop_outcome : forall (PS : Type) (pstep : PS -> op -> bool * PS) sc ps committed0,
+  sf_p2 sc <> FAfter -> sf_rollback sc <> FBefore ->
+  let r := w_commit sop_state PS lifecycle pstep (SopState Begun committed0 sc) ps in
+  s_phase (o_sop r) = Done /\
+  (o_ok r = true -> s_committed (o_sop r) = true) /\
+  (o_ok r = false -> s_committed (o_sop r) = committed0).
+Proof.
+  intros PS pstep sc ps c0 H2 Hr r. subst r. unfold w_commit, fail_with, w_rollback.
+  destruct sc as [fb f1 f2 fr]. cbn [sf_p2 sf_rollback] in H2, Hr.
+  destruct (until_fail PS pstep OP1 0 ps) as [[l1 okp] ps1] eqn:Eu.
+  destruct f1, okp, f2, fr; try congruence; cbn -[for_all until_fail];
+    rewrite ?Eu; cbn -[for_all until_fail];
+    repeat match goal with
+    | |- context [for_all ?a ?b ?c ?d ?e] => destruct (for_all a b c d e) as [[? ?] ?]
+    end; cbn; repeat split; intros; congruence.
+Qed.
+
+(* a failed Begin leaves SOP's transaction not begun (ended by its Rollback, or never started) *)
+Lemma c16_begin_sop_outcome : forall (PS : Type) (pstep : PS -> op -> bool * PS) sc ps,
+  sf_begin sc <> FAfter -> sf_rollback sc <> FBefore ->
+  let r := w_begin sop_state PS lifecycle pstep (sop_init sc) ps in
+  o_ok r = false -> has_begun (s_phase (o_sop r)) = false /\ s_committed (o_sop r) = false.
+Proof.
+  intros PS pstep sc ps Hb Hr r. subst r. unfold w_begin, w_rollback, sop_init.
+  destruct sc as [fb f1 f2 fr]. cbn [sf_begin sf_rollback] in Hb, Hr.
+  destruct (until_fail PS pstep OBegin 0 ps) as [[l res] ps'] eqn:Eu.
+  destruct fb, res, fr; try congruence; cbn -[for_all until_fail firstn skipn];
+    rewrite ?Eu; cbn -[for_all until_fail firstn skipn];
+    repeat match goal with
+    | |- context [for_all ?a ?b ?c ?d ?e] => destruct (for_all a b c d e) as [[? ?] ?]
+    end; cbn; intros; repeat split; congruence.
 Qed.
